@@ -783,3 +783,22 @@ fn x6_symsecret() {
     assert!(p.is(0, Op::Expand, &secret, &rfc_kdf_label(NH as u16, &label, &[]), NH));
     core::mem::forget(r);
 }
+
+#[kani::proof]
+#[kani::stub(zeroize::optimization_barrier, noop_barrier)]
+#[kani::unwind(12)]
+fn x7_symlen_nondet_index() {
+    let p = GhostProvider::new();
+    let secret = any_exact::<2>();
+    let label = any_bytes::<4>();
+    let r = kdf_derive_secret(&p, &secret, &label);
+    assert!(r.is_ok());
+    assert!(p.calls() == 1);
+    let want = rfc_kdf_label(NH as u16, &label, &[]);
+    let c = p.trace.borrow()[0];
+    assert!(c.b_len == want.len());
+    let i: usize = kani::any();
+    kani::assume(i < want.len());
+    assert!(c.b[i] == want[i]);
+    core::mem::forget(r);
+}
